@@ -14,11 +14,12 @@ import (
 // See DESIGN.md section 4 (C20).
 
 type c20Op struct {
-	Kind  string `json:"kind"`               // "from", "clean", "cleanall"
-	Sp    int    `json:"spelling,omitempty"` // which spelling of the name(s) this call uses
-	Set   int    `json:"set"`
-	Name  int    `json:"name,omitempty"`
-	Names []int  `json:"names,omitempty"`
+	Others bool   `json:"also_names_files_that_are_not_cache_entries,omitempty"`
+	Kind   string `json:"kind"`               // "from", "clean", "cleanall"
+	Sp     int    `json:"spelling,omitempty"` // which spelling of the name(s) this call uses
+	Set    int    `json:"set"`
+	Name   int    `json:"name,omitempty"`
+	Names  []int  `json:"names,omitempty"`
 }
 
 type c20Env struct {
@@ -29,12 +30,12 @@ type c20Env struct {
 }
 
 type c20Phase struct {
-	Debug []bool    `json:"debug"`
+	Debug []bool `json:"debug"`
 	// LStrip: value of the set's LStripBlocks option during this phase (the caller changes
 	// it between phases, like Debug; it has no effect on what the cached files render)
-	LStrip []bool `json:"lstrip_blocks"`
-	Tasks [][]c20Op `json:"tasks"`
-	Env   []c20Env  `json:"env,omitempty"`
+	LStrip []bool    `json:"lstrip_blocks"`
+	Tasks  [][]c20Op `json:"tasks"`
+	Env    []c20Env  `json:"env,omitempty"`
 }
 
 type c20Spec struct {
@@ -125,7 +126,7 @@ func c20TopContent(name string, ver, disk int, hasInc bool, inc string, corrupt 
 	// the part after the marker renders differently under the set's TrimBlocks option
 	// (g0 / g1: a global that only set 0 / only set 1 defines; cm: an exported macro, so that a
 	// context carrying the key "cm" is rejected before anything is rendered)
-	s := fmt.Sprintf("[%sv%d@%d:{{ setname }}{{ g0 }}{{ g1 }}]{%% if true %%}\nT{%% endif %%}", name, ver, disk)
+	s := fmt.Sprintf("[%sv%d@%d:{{ setname }}{{ g0 }}{{ g1 }}{{ gdef }}]{%% if true %%}\nT{%% endif %%}", name, ver, disk)
 	const cm = "{% macro cm() export %}{% endmacro %}"
 	if hasInc && inc == "base.tpl" {
 		s = `{% extends "base.tpl" %}` + cm + `{% block b %}` + s + "{% endblock %}"
@@ -138,6 +139,15 @@ func c20TopContent(name string, ver, disk int, hasInc bool, inc string, corrupt 
 		s += "{% if %}"
 	}
 	return s
+}
+
+// The package's DefaultSet is a set like any other: it gets a global, a tag ban and a filter
+// ban of its own (once per process; the harness never creates a template in it), none of
+// which may show in any other set.
+func init() {
+	pongo2.DefaultSet.Globals["gdef"] = "GDEF-LEAK"
+	pongo2.DefaultSet.BanTag("firstof")
+	pongo2.DefaultSet.BanFilter("title")
 }
 
 func c20Gen(tp *Tapes) *c20Spec {
@@ -238,6 +248,14 @@ func c20Gen(tp *Tapes) *c20Spec {
 					op.Names = []int{g.Draw(nNames)}
 					if g.Draw(3) == 2 {
 						op.Names = append(op.Names, g.Draw(nNames))
+					}
+					// now and then the call (also) names files that are not cache entries of their
+					// own: what a cached template includes or extends, and a name never asked for
+					switch g.Draw(6) {
+					case 0:
+						op.Others, op.Names = true, nil
+					case 1:
+						op.Others = true
 					}
 				case 7:
 					op.Kind = "cleanall"
@@ -618,6 +636,14 @@ func (c20Checker) Run(tp *Tapes, opt RunOpt) *Outcome {
 							for _, n := range op.Names {
 								ns = append(ns, sp.spelling(op.Set, n, op.Sp))
 							}
+							if op.Others {
+								ns = append(ns, "never-asked-for.tpl")
+								for ni := range sp.Names {
+									if sp.HasInc[ni] {
+										ns = append(ns, sp.second(ni))
+									}
+								}
+							}
 							set.CleanCache(ns...)
 						case "cleanall":
 							set.CleanCache()
@@ -843,8 +869,12 @@ func (c20Checker) Run(tp *Tapes, opt RunOpt) *Outcome {
 		// ---- oracle: bans and options of one set never leak into another -------------------
 		if out.HarnessErr == "" {
 			for si, set := range sets {
-				for bi, src := range []string{"{% lorem 1 w %}", "{% templatetag openblock %}", `{{ "x"|upper }}`, `{{ "x"|lower }}`} {
-					bi %= 2
+				for bi, src := range []string{"{% lorem 1 w %}", "{% templatetag openblock %}", `{{ "x"|upper }}`, `{{ "x"|lower }}`, "{% firstof 1 %}", `{{ "x"|title }}`} {
+					if bi >= 4 {
+						bi = -1 // banned in the package's DefaultSet only: must compile in every other set
+					} else {
+						bi %= 2
+					}
 					_, err := set.FromString(src)
 					wantErr := bi == si%2
 					if (err != nil) != wantErr {
